@@ -162,6 +162,13 @@ def texts_for(ctx: Ctx, idx: int):
     out.append(('nul_trailing', gen_text(rng, cls, 15) + '\0'))
     out.append(('nul_trailing', gen_text(rng, cls, 16) + '\0'))
     out.append(('nul_only', '\0' * rng.randint(1, 17)))
+    # endings that look like the padding of a common scheme (PKCS#7: n copies of chr(n); ANSI X.923: zeros then chr(n);
+    # ISO 7816: 0x80; a lone length byte), on texts whose length is a whole number of blocks, one less and one more
+    n = 1 + idx % 16
+    for total in (16, 32, 31, 33, 48):
+        for tail in (chr(n) * n, '\0' * (n - 1) + chr(n), '\x80', chr(n)):
+            if len(tail) <= total:
+                out.append(('pad_like', gen_text(rng, cls, total - len(tail)) + tail))
     return out
 
 
